@@ -1240,16 +1240,20 @@ func (l *Lowerer) buildOverrideInitExpr(expr parser.Expr) ir.OverrideInitExpr {
 		// Handle integer literals (may have suffix)
 		if e.Kind == parser.TokenIntLiteral {
 			s := e.Value
-			isUnsigned := false
+			isUnsigned, isSigned := false, false
 			if len(s) > 0 && s[len(s)-1] == 'u' {
 				isUnsigned = true
 				s = s[:len(s)-1]
 			} else if len(s) > 0 && s[len(s)-1] == 'i' {
+				isSigned = true
 				s = s[:len(s)-1]
 			}
 			if ival, err := strconv.ParseInt(s, 0, 64); err == nil {
 				if isUnsigned {
 					return ir.OverrideInitUintLiteral{Value: uint32(ival)}
+				}
+				if isSigned {
+					return ir.OverrideInitSintLiteral{Value: int32(ival)}
 				}
 				return ir.OverrideInitLiteral{Value: float64(ival)}
 			}
@@ -16318,6 +16322,9 @@ func (l *Lowerer) buildOverrideGlobalExpr(
 
 	case ir.OverrideInitUintLiteral:
 		return addExpr(ir.Literal{Value: ir.LiteralU32(e.Value)})
+
+	case ir.OverrideInitSintLiteral:
+		return addExpr(ir.Literal{Value: ir.LiteralI32(e.Value)})
 
 	case ir.OverrideInitRef:
 		// Reference to another override -> Override expression.
